@@ -6,7 +6,7 @@
 From BS Require Import Model.Base Model.Regex Model.Num Model.ExprParser Model.Script Model.ScriptX Model.Lower
   Gen.Unicode Proofs.ScriptFacts Proofs.C06 Proofs.C10 Proofs.C10ws Proofs.C10wsExpr Proofs.C10wsIndent
   Proofs.ExprFuel Proofs.C10wsFull Proofs.RegexShiftG Proofs.C10wsIndent2 Proofs.C10wsReturn
-  Proofs.C10tokLex Proofs.C10tokSpaced.
+  Proofs.C10tokLex Proofs.C10tokSpaced Proofs.RegexTrail Proofs.C10tokTrail.
 
 (* ---- LF versus CRLF: both texts have the same lines ---- *)
 Theorem C10_crlf : forall lines, lines <> [] -> Forall no_lf lines -> Forall (fun l => ends_cr l = false) lines ->
@@ -206,6 +206,34 @@ Example C10_ex_ws_tokens_inside :
   parse_expression (U "x+1") = parse_expression (U "x + 1") /\
   parse_expression (U "+1") <> parse_expression (U "+ 1").
 Proof. exact spaced_counterexamples. Qed.
+
+(* ---- TRAILING white space of an expression (round 5, Proofs/RegexTrail.v, Proofs/C10tokTrail.v): FULL — every text
+   (also a rejected one: same message and same column), every run of `\s` characters, an EQUALITY of results.
+   Each of the eleven regenerated token regexes answers on s ++ ws exactly what it answers on s (C10_ws_token_regex_trailing):
+   the eight that end with a literal non-space character through an operational lemma about the backtracking engine itself
+   (appending white space to the subject changes nothing when the continuation refuses to stop inside the appended run:
+   Proofs/RegexTrail.v m_trail / ev_trail — this covers the '...' "..." [...] regexes, whose stars over alternations have no
+   direct reading), the four that end inside a capture group through their direct readings.  Then the three parser functions
+   run in lockstep on s ++ ws and s; the final strip() ignores the run; columns are differences of lengths. ---- *)
+Theorem C10_ws_expression_trailing : forall t ws, white ws -> parse_expression (t ++ ws) = parse_expression t.
+Proof. exact parse_expression_trail. Qed.
+Print Assumptions C10_ws_expression_trailing.
+
+Theorem C10_ws_token_regex_trailing : forall R s ws, tokre R -> white ws -> rx R (s ++ ws) = rx R s.
+Proof. exact rx_trail. Qed.
+Print Assumptions C10_ws_token_regex_trailing.
+
+Example C10_ex_ws_expression_trailing :
+  white (U " \000009 ") /\ tokre Gen.Regexes.R_EXPR_STRING /\
+  (exists e, parse_expression (U "fn(1, -x) + 'a' \000009 ") = EOk e /\ parse_expression (U "fn(1, -x) + 'a'") = EOk e) /\
+  parse_expression (U "1 + ) \000009 ") = EErr (U "Syntax error") 4 /\ parse_expression (U "1 + )") = EErr (U "Syntax error") 4 /\
+  parse_expression (U "'a \000009 ") = parse_expression (U "'a").
+Proof.
+  split; [intros c I; vm_compute in I; repeat (destruct I as [<-|I]; [reflexivity|]); contradiction|].
+  split; [constructor|].
+  split; [eexists; split; vm_compute; reflexivity|].
+  repeat split; vm_compute; reflexivity.
+Qed.
 
 (* C10_ws_tokens_partial — the FULL clause "breaking a line at any point where a space is allowed / changing indentation or
    trailing whitespace yields the same statement" needs whitespace-insensitivity of EVERY statement regex and of the
